@@ -21,7 +21,7 @@ UNIT_DEFAULTS = {
     "props": [], "tu": None, "functions": [], "mode": "dfcc",
     "enforce": [], "replace": [], "restrict_fp": [], "unwindset": [],
     "cbmc": {}, "label": "proved-unbounded", "bound": "none", "trusted": [],
-    "min_obligations": 1, "timeout": 120, "timeout_thorough": 900, "mem_gb": 8,
+    "min_obligations": 1, "timeout": 120, "timeout_thorough": 900, "mem_gb": 6,
     "tiers": ["quick", "thorough"], "defines": [], "defines_thorough": [], "defines_quick": [],
     "exclude": [], "allow_no_body": [], "replaced_verified_in": {}, "canary": True,
     "ndebug": True, "known_finding": None, "native": True,
